@@ -404,9 +404,23 @@ type rangeRw struct {
 	val  *types.Var
 	f    func(Term) (Term, bool)
 	pos  token.Pos
+	// other counters of a synthesised post statement: handed back to the iterations (the range form has no post statement)
+	restore map[types.Object]int64
 }
 
 func (rw *rangeRw) apply(r *LoopRec) *LoopRec {
+	for o, d := range rw.restore {
+		for _, p := range r.Iter {
+			if p.End != "fall" && p.End != "continue" {
+				continue
+			}
+			if lv, ok := p.Env[o].(TLoop); ok && lv.Obj == o && lv.ID == r.ID {
+				p.Env = copyEnv(p.Env)
+				p.Env[o] = TBin{Op: token.ADD, X: lv, Y: TConst{constant.MakeInt64(d)}}
+			}
+		}
+	}
+	r.Post, r.PostStep = nil, nil
 	r.Range = &ast.RangeStmt{For: rw.pos}
 	r.Over = rw.over
 	r.Key = rw.i
@@ -441,8 +455,28 @@ func (v *sxView) normalizePaths(paths []*Path) []*Path {
 }
 
 func (v *sxView) rangeRewrite(l *LoopRec, val *types.Var) *rangeRw {
-	if l.For == nil || l.CondT == nil || l.Post == nil {
+	if l.For == nil || l.CondT == nil || (l.Post == nil && l.PostStep == nil) {
 		return nil
+	}
+	// how the post statement (written or synthesised) advances o: +1, -1, 0 = otherwise
+	stepOf := func(o types.Object) int {
+		if l.Post != nil {
+			return v.c.counterStep(l.Post, o)
+		}
+		if d := l.PostStep[o]; d == 1 || d == -1 {
+			return int(d)
+		}
+		return 0
+	}
+	postAssigned := func() []types.Object {
+		if l.Post != nil {
+			return v.c.assignedInStmt(l.Post)
+		}
+		var out []types.Object
+		for o := range l.PostStep {
+			out = append(out, o)
+		}
+		return out
 	}
 	cond, ok := l.CondT.(TBin)
 	if !ok {
@@ -462,10 +496,10 @@ func (v *sxView) rangeRewrite(l *LoopRec, val *types.Var) *rangeRw {
 		case (cond.Op == token.LSS || cond.Op == token.NEQ) && zero(cond.X):
 			left = cond.Y
 		}
-		if ll, ok := left.(TLoop); ok && ll.ID == l.ID && v.c.counterStep(l.Post, ll.Obj) == -1 && l.Init[ll.Obj] != nil {
+		if ll, ok := left.(TLoop); ok && ll.ID == l.ID && stepOf(ll.Obj) == -1 && l.Init[ll.Obj] != nil {
 			var up types.Object
-			for _, a := range v.c.assignedInStmt(l.Post) {
-				if a != ll.Obj && v.c.counterStep(l.Post, a) == 1 {
+			for _, a := range postAssigned() {
+				if a != ll.Obj && stepOf(a) == 1 {
 					if k, ok := constInt(l.Init[a]); ok && k == 0 && up == nil {
 						up = a
 					}
@@ -498,6 +532,22 @@ func (v *sxView) rangeRewrite(l *LoopRec, val *types.Var) *rangeRw {
 			if up != nil && !used {
 				co = ll.Obj
 				cond = TBin{Op: token.LSS, X: TLoop{up, l.ID}, Y: l.Init[ll.Obj]}
+			}
+		}
+	}
+	if cond.Op == token.NEQ {
+		// `i != len(X)` with i counting up from 0 by one: i never passes a bound that is a length, so this is `i < len(X)`
+		for _, pair := range [][2]Term{{cond.X, cond.Y}, {cond.Y, cond.X}} {
+			lv, isL := pair[0].(TLoop)
+			if !isL || lv.ID != l.ID || stepOf(lv.Obj) != 1 {
+				continue
+			}
+			if k, ok := constInt(l.Init[lv.Obj]); !ok || k != 0 {
+				continue
+			}
+			if b, isLen := pair[1].(TBuiltin); (isLen && b.Name == "len" && len(b.Args) == 1) || v.isCountOfRecv(pair[1]) {
+				cond = TBin{Op: token.LSS, X: pair[0], Y: pair[1]}
+				break
 			}
 		}
 	}
@@ -534,21 +584,29 @@ func (v *sxView) rangeRewrite(l *LoopRec, val *types.Var) *rangeRw {
 			return nil
 		}
 		bound = ini.X
-		if v.c.counterStep(l.Post, i) != -1 {
+		if stepOf(i) != -1 {
 			return nil
 		}
 	} else {
 		if k, ok := constInt(l.Init[i]); !ok || k != 0 {
 			return nil
 		}
-		if v.c.counterStep(l.Post, i) != 1 {
+		if stepOf(i) != 1 {
 			return nil
 		}
 	}
-	// the post statement assigns nothing but the counter, the body does not assign the counter
-	for _, a := range v.c.assignedInStmt(l.Post) {
+	// the post statement assigns nothing but the counter (further counters of a synthesised one go back to the iterations), the body
+	// does not assign the counter
+	var restore map[types.Object]int64
+	for _, a := range postAssigned() {
 		if a != i && a != co {
-			return nil
+			if l.Post != nil {
+				return nil
+			}
+			if restore == nil {
+				restore = map[types.Object]int64{}
+			}
+			restore[a] = l.PostStep[a]
 		}
 	}
 	for _, p := range l.Iter {
@@ -625,7 +683,7 @@ func (v *sxView) rangeRewrite(l *LoopRec, val *types.Var) *rangeRw {
 		}
 		return nil, false
 	}
-	return &rangeRw{over: over, i: i, val: val, f: f, pos: l.For.Pos()}
+	return &rangeRw{over: over, i: i, val: val, f: f, pos: l.For.Pos(), restore: restore}
 }
 
 func (c *Ctx) assignedInStmt(s ast.Stmt) []types.Object {
@@ -983,6 +1041,96 @@ func boolUnder(p *Path, t Term) (val, known bool) {
 	return condValue(p, t)
 }
 
+// boundTruth: the loop is the quiet count `for i < B` from 0 by one, B a length; after it, a comparison of i with B is decided by the
+// way the loop was left: exhausted, i == B; left by break from a round that did not move i, i < B (the round had begun).
+func (v *sxView) boundTruth(l *LoopRec, ex *Path, t Term) (val, known bool) {
+	cmp, ok := t.(TBin)
+	if !ok {
+		return false, false
+	}
+	hd, ok := simplify(l.CondT).(TBin)
+	if !ok || l.CondT == nil {
+		return false, false
+	}
+	var ctr TLoop
+	var bound Term
+	switch {
+	case hd.Op == token.LSS:
+		c0, isL := hd.X.(TLoop)
+		ctr, bound, ok = c0, hd.Y, isL
+	case hd.Op == token.GTR:
+		c0, isL := hd.Y.(TLoop)
+		ctr, bound, ok = c0, hd.X, isL
+	default:
+		ok = false
+	}
+	if !ok || ctr.ID != l.ID || !isIntType(ctr.Obj.Type()) {
+		return false, false
+	}
+	if k, isK := constInt(l.Init[ctr.Obj]); !isK || k != 0 {
+		return false, false
+	}
+	step := 0
+	if l.Post != nil {
+		step = v.c.counterStep(l.Post, ctr.Obj)
+	} else if d, has := l.PostStep[ctr.Obj]; has {
+		step = int(d)
+	}
+	if step != 1 {
+		return false, false
+	}
+	if bl, isLen := bound.(TBuiltin); !(isLen && bl.Name == "len" && len(bl.Args) == 1) && !v.isCountOfRecv(bound) {
+		return false, false
+	}
+	if !loopQuiet(l) {
+		return false, false
+	}
+	for _, ip := range l.Iter {
+		if ip.End == "fall" || ip.End == "continue" {
+			if tv, has := ip.Env[ctr.Obj]; has && !sameTerm(tv, ctr) {
+				return false, false // the body moves the counter as well
+			}
+		}
+	}
+	if ex != nil && !sameTerm(exitVal(l, ex, ctr.Obj), ctr) {
+		return false, false
+	}
+	bk := key(eraseEpochs(bound))
+	op := cmp.Op
+	switch {
+	case sameTerm(cmp.X, ctr) && key(eraseEpochs(cmp.Y)) == bk:
+	case sameTerm(cmp.Y, ctr) && key(eraseEpochs(cmp.X)) == bk:
+		switch op { // B OP i is i OP' B
+		case token.LSS:
+			op = token.GTR
+		case token.LEQ:
+			op = token.GEQ
+		case token.GTR:
+			op = token.LSS
+		case token.GEQ:
+			op = token.LEQ
+		}
+	default:
+		return false, false
+	}
+	less := ex != nil // i < B; otherwise i == B
+	switch op {
+	case token.EQL:
+		return !less, true
+	case token.NEQ:
+		return less, true
+	case token.LSS:
+		return less, true
+	case token.LEQ:
+		return true, true
+	case token.GTR:
+		return false, true
+	case token.GEQ:
+		return !less, true
+	}
+	return false, false
+}
+
 // positionTruth: the boolean term t mentions, besides constants, only the position variable of one top-level in-order visit of the
 // path (a range key / a counter starting at 0 and stepping by one); it has the same truth for every non-negative position —
 // decided at the break-points of its comparisons.
@@ -1174,6 +1322,61 @@ func (c *Ctx) flagCond(l *LoopRec) (*LoopRec, func(Term) (Term, bool)) {
 	return nil, nil
 }
 
+// splitCond (N1b): `for i < n && P(i) { body }` is `for i < n { if !P(i) { break }; body }` — && evaluates P only when the bound
+// holds, at the head of every round, which is where the test is put. Applied when the first conjunct compares an integer variable
+// of the loop; the tests moved (as the steps a continuing round begins with) are returned for the paths that leave from inside.
+func (c *Ctx) splitCond(l *LoopRec) (*LoopRec, []Step) {
+	if l.For == nil || l.CondT == nil {
+		return nil, nil
+	}
+	cs := conjuncts(l.CondT)
+	if len(cs) < 2 {
+		return nil, nil
+	}
+	b, ok := cs[0].(TBin)
+	if !ok {
+		return nil, nil
+	}
+	switch b.Op {
+	case token.LSS, token.LEQ, token.GTR, token.GEQ, token.NEQ:
+	default:
+		return nil, nil
+	}
+	ctr := false
+	for _, side := range []Term{b.X, b.Y} {
+		if lv, ok := side.(TLoop); ok && lv.ID == l.ID && isIntType(lv.Obj.Type()) {
+			ctr = true
+		}
+	}
+	if !ctr {
+		return nil, nil
+	}
+	var node ast.Node = l.For
+	if l.For.Cond != nil {
+		node = l.For.Cond
+	}
+	r := *l
+	r.CondT = cs[0]
+	r.Iter = nil
+	var lead []Step
+	for k, t := range cs[1:] {
+		// leaving on the k-th moved test: the earlier ones held
+		leave := &Path{End: "break", Node: node, Env: copyEnv(l.HeadEnv)}
+		leave.Steps = append(leave.Steps, lead...)
+		leave.Steps = append(leave.Steps, Step{Kind: "cond", Cond: Cond{T: t, Truth: false, Node: node}, Node: node})
+		r.Iter = append(r.Iter, leave)
+		lead = append(lead, Step{Kind: "cond", Cond: Cond{T: t, Truth: true, Node: node}, Node: node})
+		_ = k
+	}
+	for _, ip := range l.Iter {
+		q := clonePath(ip)
+		q.Steps = append(append([]Step(nil), lead...), ip.Steps...)
+		r.Iter = append(r.Iter, q)
+	}
+	r.Quiet = l.Quiet
+	return &r, lead
+}
+
 func insideNode(n ast.Node, outer ast.Node) bool {
 	return n != nil && outer != nil && n.Pos() >= outer.Pos() && n.Pos() < outer.End()
 }
@@ -1215,13 +1418,50 @@ func inLoopExitIndex(p *Path, li int) int {
 	return -1
 }
 
+// inLoopExitPrefix: as inLoopExitIndex, for a loop that sits in an inlined helper: the helper's return from inside the loop is
+// followed by the caller's own steps, so the leaving round's steps are only the beginning of what follows the loop step.
+func inLoopExitPrefix(p *Path, li int) int {
+	if idx := inLoopExitIndex(p, li); idx >= 0 {
+		return idx
+	}
+	l := p.Steps[li].Loop
+	after := p.Steps[li+1:]
+	best, bestLen, ties := -1, -1, 0
+	for idx, ip := range l.Iter {
+		if (ip.End != "return" && ip.End != "panic") || len(ip.Steps) > len(after) || len(ip.Steps) == 0 {
+			continue
+		}
+		same := true
+		for k := range ip.Steps {
+			if after[k].Kind != ip.Steps[k].Kind || after[k].Node != ip.Steps[k].Node || (after[k].Kind == "cond" && after[k].Cond.Truth != ip.Steps[k].Cond.Truth) {
+				same = false
+				break
+			}
+		}
+		if !same {
+			continue
+		}
+		switch {
+		case len(ip.Steps) > bestLen:
+			best, bestLen, ties = idx, len(ip.Steps), 1
+		case len(ip.Steps) == bestLen:
+			ties++
+		}
+	}
+	if ties != 1 {
+		return -1
+	}
+	return best
+}
+
 // flagNorm applies N1 and N2 to the top-level loops of the paths of one function.
 func (v *sxView) flagNorm(paths []*Path) []*Path {
 	c := v.c
 	// N1
 	type n1res struct {
-		l   *LoopRec
-		sub func(Term) (Term, bool)
+		l    *LoopRec
+		sub  func(Term) (Term, bool)
+		lead []Step
 	}
 	n1 := map[*LoopRec]n1res{}
 	cur := make([]*Path, len(paths))
@@ -1235,6 +1475,9 @@ func (v *sxView) flagNorm(paths []*Path) []*Path {
 			r, done := n1[s.Loop]
 			if !done {
 				r.l, r.sub = c.flagCond(s.Loop)
+				if r.l == nil {
+					r.l, r.lead = c.splitCond(s.Loop)
+				}
 				n1[s.Loop] = r
 			}
 			if r.l == nil {
@@ -1243,12 +1486,18 @@ func (v *sxView) flagNorm(paths []*Path) []*Path {
 			if q == p {
 				q = clonePath(p)
 			}
+			wasExit := inLoopExit(q, k)
 			q.Steps[k].Loop = r.l
-			if inLoopExit(q, k) {
+			if wasExit && r.sub != nil {
 				// an exit from inside this loop: its remaining steps are those of the iteration
 				tail := mapPath(&Path{Steps: q.Steps[k+1:], Vals: q.Vals}, r.sub)
 				q.Steps = append(q.Steps[:k+1:k+1], tail.Steps...)
 				q.Vals = tail.Vals
+			}
+			if wasExit && len(r.lead) > 0 {
+				// the leaving iteration passed the tests moved from the loop condition into the body
+				rest := append([]Step(nil), q.Steps[k+1:]...)
+				q.Steps = append(append(q.Steps[:k+1:k+1], r.lead...), rest...)
 			}
 		}
 		cur[i] = q
@@ -1333,6 +1582,17 @@ func (v *sxView) flagNorm(paths []*Path) []*Path {
 				continue
 			}
 			st := true
+			// what the post statement (written or synthesised) advances is not where it started
+			if _, moved := l.PostStep[o]; moved {
+				st = false
+			}
+			if l.Post != nil {
+				for _, a := range c.assignedInStmt(l.Post) {
+					if a == o {
+						st = false
+					}
+				}
+			}
 			for _, ip := range l.Iter {
 				if ip.End != "fall" && ip.End != "continue" {
 					continue
@@ -1361,6 +1621,9 @@ func (v *sxView) flagNorm(paths []*Path) []*Path {
 		picks := make([]pick, len(exits))
 		for ei, ex := range exits {
 			sub := func(t Term) (Term, bool) {
+				if b, known := v.boundTruth(l, ex, t); known {
+					return boolTerm(b), true
+				}
 				lv, isL := t.(TLoop)
 				if !isL || lv.ID != l.ID || !mentioned[lv.Obj] {
 					return nil, false
@@ -1912,7 +2175,6 @@ func (v *sxView) emptyGuardNorm(paths []*Path) []*Path {
 	return paths
 }
 
-
 // ---------------------------------------------------------------- shrinking windows
 //
 // `for rest := xs; len(rest) > 0; rest = rest[2:] { … rest[0] … rest[1] … }` walks xs with a window that loses its first c elements
@@ -1983,44 +2245,100 @@ func simplifyWindows(t Term) Term {
 }
 
 func (v *sxView) windowRewrite(l *LoopRec) *winRw {
-	if l.For == nil || l.CondT == nil || l.Post == nil {
+	if l.For == nil || l.CondT == nil {
 		return nil
 	}
-	as, ok := l.Post.(*ast.AssignStmt)
-	if !ok || len(as.Lhs) != 1 || len(as.Rhs) != 1 || as.Tok != token.ASSIGN {
-		return nil
-	}
-	o := v.c.obj(as.Lhs[0])
-	if o == nil {
-		return nil
-	}
-	if _, isSl := o.Type().Underlying().(*types.Slice); !isSl {
-		return nil
-	}
-	se, ok := ast.Unparen(as.Rhs[0]).(*ast.SliceExpr)
-	if !ok || v.c.obj(se.X) != o || se.High != nil || se.Max != nil || se.Low == nil {
-		return nil
-	}
-	tv, ok := v.c.Info.Types[se.Low]
-	if !ok || tv.Value == nil {
-		return nil
-	}
-	step, exact := constant.Int64Val(constant.ToInt(tv.Value))
-	if !exact || step <= 0 {
-		return nil
+	var o types.Object
+	var step int64
+	if l.Post != nil {
+		as, ok := l.Post.(*ast.AssignStmt)
+		if !ok || len(as.Lhs) != 1 || len(as.Rhs) != 1 || as.Tok != token.ASSIGN {
+			return nil
+		}
+		o = v.c.obj(as.Lhs[0])
+		if o == nil {
+			return nil
+		}
+		if _, isSl := o.Type().Underlying().(*types.Slice); !isSl {
+			return nil
+		}
+		se, ok := ast.Unparen(as.Rhs[0]).(*ast.SliceExpr)
+		if !ok || v.c.obj(se.X) != o || se.High != nil || se.Max != nil || se.Low == nil {
+			return nil
+		}
+		tv, ok := v.c.Info.Types[se.Low]
+		if !ok || tv.Value == nil {
+			return nil
+		}
+		var exact bool
+		step, exact = constant.Int64Val(constant.ToInt(tv.Value))
+		if !exact || step <= 0 {
+			return nil
+		}
+		for _, p := range l.Iter {
+			if p.End != "fall" && p.End != "continue" {
+				continue
+			}
+			if t, ok := p.Env[o]; ok {
+				if lv, same := t.(TLoop); !same || lv.Obj != o || lv.ID != l.ID {
+					return nil // the body moves the window itself
+				}
+			}
+		}
+	} else {
+		// no post statement: every continuing iteration ends with the window shortened by the same constant (`keys = keys[1:]` as the
+		// body's last word on keys)
+		if len(l.PostStep) != 0 {
+			return nil
+		}
+		cands := map[types.Object]bool{}
+		for _, p := range l.Iter {
+			for cand := range p.Env {
+				cands[cand] = true
+			}
+		}
+		for cand := range cands {
+			if _, isSl := cand.Type().Underlying().(*types.Slice); !isSl {
+				continue
+			}
+			var st int64
+			ok, n := true, 0
+			for _, p := range l.Iter {
+				if p.End != "fall" && p.End != "continue" {
+					continue
+				}
+				n++
+				sl, isS := p.Env[cand].(TSlice)
+				if !isS || sl.Hi != nil || sl.Max != nil || sl.Lo == nil {
+					ok = false
+					break
+				}
+				lv, isL := sl.X.(TLoop)
+				k, isK := constInt(sl.Lo)
+				if !isL || lv.Obj != cand || lv.ID != l.ID || !isK || k <= 0 || (st != 0 && st != k) {
+					ok = false
+					break
+				}
+				st = k
+			}
+			if ok && n > 0 && st > 0 {
+				if o != nil {
+					return nil
+				}
+				o, step = cand, st
+			}
+		}
+		if o == nil {
+			return nil
+		}
 	}
 	init, has := l.Init[o]
 	if !has {
-		return nil
-	}
-	for _, p := range l.Iter {
-		if p.End != "fall" && p.End != "continue" {
-			continue
-		}
-		if t, ok := p.Env[o]; ok {
-			if lv, same := t.(TLoop); !same || lv.Obj != o || lv.ID != l.ID {
-				return nil // the body moves the window itself
-			}
+		// a parameter the function has not assigned before the loop is itself
+		if pv, isVar := o.(*types.Var); isVar && l.Post == nil && v.c.isParamOf(v.fd, pv) {
+			init = TVar{o}
+		} else {
+			return nil
 		}
 	}
 	off := types.NewVar(l.For.Pos(), v.c.Types, "off·"+o.Name(), types.Typ[types.Int])
@@ -2034,6 +2352,42 @@ func (v *sxView) windowRewrite(l *LoopRec) *winRw {
 	return &winRw{o: o, off: off, id: id, step: step, f: f}
 }
 
+// offsetCond: "something is left of the window" — len(S)-off > 0, 0 < len(S)-off, len(S)-off != 0, len(S)-off >= 1 — is off < len(S).
+func offsetCond(t Term, off types.Object, id int) Term {
+	b, ok := t.(TBin)
+	if !ok {
+		return t
+	}
+	l, r, op := b.X, b.Y, b.Op
+	if _, lc := constInt(l); lc {
+		// constant on the left: k OP x is x OP' k
+		l, r = r, l
+		switch op {
+		case token.LSS:
+			op = token.GTR
+		case token.LEQ:
+			op = token.GEQ
+		case token.GTR:
+			op = token.LSS
+		case token.GEQ:
+			op = token.LEQ
+		}
+	}
+	k, isK := constInt(r)
+	d, isD := l.(TBin)
+	if !isK || !isD || d.Op != token.SUB {
+		return t
+	}
+	lv, isL := d.Y.(TLoop)
+	if !isL || lv.Obj != off || lv.ID != id {
+		return t
+	}
+	if (op == token.GTR && k == 0) || (op == token.NEQ && k == 0) || (op == token.GEQ && k == 1) {
+		return TBin{Op: token.LSS, X: lv, Y: d.X}
+	}
+	return t
+}
+
 func (rw *winRw) apply(r *LoopRec) {
 	delete(r.Init, rw.o)
 	r.Init[rw.off] = TConst{constant.MakeInt64(0)}
@@ -2042,7 +2396,7 @@ func (rw *winRw) apply(r *LoopRec) {
 	}
 	r.Post = nil
 	r.PostStep = map[types.Object]int64{rw.off: rw.step}
-	r.CondT = simplifyWindows(r.CondT)
+	r.CondT = offsetCond(simplifyWindows(r.CondT), rw.off, rw.id)
 	for i, p := range r.Iter {
 		q := mapPath(p, func(t Term) (Term, bool) { return simplifyWindows(t), true })
 		if q.Env != nil {
@@ -2467,4 +2821,726 @@ func (v *sxView) existenceScan(l *LoopRec) (types.Object, Term) {
 		text = TConv{To: types.Typ[types.String], X: text}
 	}
 	return flag, TCall{Fun: fakeContainsRune, Name: "ContainsRune", Args: []Term{text, K}}
+}
+
+// ---------------------------------------------------------------- snapshots
+
+// emptySliceInit: the term a local slice starts with denotes an empty slice (nil, make(T, 0[, cap]), T{}).
+func emptySliceInit(init Term) bool {
+	switch x := init.(type) {
+	case TNil:
+		return true
+	case TBuiltin:
+		if x.Name == "make" && len(x.Args) >= 1 {
+			if k, ok := constInt(x.Args[0]); ok && k == 0 {
+				return true
+			}
+		}
+	case TLit:
+		return len(x.Elts) == 0
+	}
+	return false
+}
+
+// snapshotNorm: values gathered from a collection into a local slice by one quiet loop — all keys, all elements, or what a filter
+// lets through and a conversion makes of it — and that slice visited by a following quiet loop —
+//
+//	keys := make([]string, 0, len(m)); for k := range m { keys = append(keys, k) }; for _, k := range keys { … }
+//	var terms []int; for _, it := range xs { if v, ok := it.getVal().(int); ok { terms = append(terms, v) } }; for _, t := range terms { sum += t }
+//
+// — is one visit of the collection: a round of the first loop that gathers E is followed at once by the round the second loop would
+// run for E, a round that gathers nothing is followed by nothing. Neither loop writes memory, so what either reads is the same
+// throughout, and the second loop sees the gathered values in the order they were gathered. Only when the slice is used for nothing
+// else and the second loop does not look at positions (or every round gathers, from a slice: then positions agree).
+func (v *sxView) snapshotNorm(paths []*Path) []*Path {
+	out := make([]*Path, len(paths))
+	for pi, p := range paths {
+		out[pi] = p
+		for a := 0; a < len(out[pi].Steps); a++ {
+			if q := v.snapshotAt(out[pi], a); q != nil {
+				out[pi] = q
+				a--
+			}
+		}
+	}
+	return out
+}
+
+func (v *sxView) snapshotAt(p *Path, a int) *Path {
+	s1 := p.Steps[a]
+	if s1.Kind != "loop" || s1.Loop == nil || s1.Loop.Range == nil {
+		return nil
+	}
+	l1 := s1.Loop
+	if !loopQuiet(l1) || len(l1.Iter) == 0 {
+		return nil
+	}
+	// the one carried variable: acc, appended to (one element) or left alone by every round
+	var acc types.Object
+	elems := make([]Term, len(l1.Iter))
+	for pi, ip := range l1.Iter {
+		if ip.End != "fall" && ip.End != "continue" {
+			return nil
+		}
+		for o, t := range ip.Env {
+			if x, same := t.(TLoop); same && x.Obj == o && x.ID == l1.ID {
+				continue
+			}
+			if h, had := l1.HeadEnv[o]; had && sameTerm(h, t) {
+				continue
+			}
+			if o == l1.Key || o == l1.Value {
+				continue
+			}
+			if _, carried := l1.Init[o]; !carried {
+				if isLocalVar(o) && insideNode(&ast.Ident{NamePos: o.Pos()}, l1.Node) {
+					continue // a local of the body
+				}
+			}
+			ap, isAp := t.(TBuiltin)
+			if !isAp || ap.Name != "append" || len(ap.Args) != 2 || (acc != nil && acc != o) {
+				return nil
+			}
+			if x, ok := ap.Args[0].(TLoop); !ok || x.Obj != o || x.ID != l1.ID {
+				return nil
+			}
+			if ce, ok := ap.Site.(*ast.CallExpr); ok && ce.Ellipsis.IsValid() {
+				return nil
+			}
+			acc, elems[pi] = o, ap.Args[1]
+		}
+	}
+	if acc == nil || !emptySliceInit(l1.Init[acc]) {
+		return nil
+	}
+	every := true
+	for _, e := range elems {
+		if e == nil {
+			every = false
+		}
+	}
+	// the next loop ranges over what was gathered
+	b := -1
+	for k := a + 1; k < len(p.Steps); k++ {
+		if p.Steps[k].Kind == "loop" {
+			b = k
+			break
+		}
+		if p.Steps[k].Kind != "cond" {
+			return nil
+		}
+	}
+	if b < 0 {
+		return nil
+	}
+	l2 := p.Steps[b].Loop
+	if l2 == nil || l2.Range == nil || !loopQuiet(l2) {
+		return nil
+	}
+	if ov, ok := l2.Over.(TLoop); !ok || ov.Obj != acc || ov.ID != l1.ID {
+		return nil
+	}
+	mentions := func(t Term, o types.Object) bool {
+		hit := false
+		if t == nil || o == nil {
+			return false
+		}
+		collectSubterms(t, func(u Term) {
+			switch x := u.(type) {
+			case TVar:
+				hit = hit || x.Obj == o
+			case TLoop:
+				hit = hit || x.Obj == o
+			}
+		})
+		return hit
+	}
+	var pathMentions func(q *Path, o types.Object, skip map[int]bool) bool
+	pathMentions = func(q *Path, o types.Object, skip map[int]bool) bool {
+		for k, s := range q.Steps {
+			if skip[k] {
+				continue
+			}
+			if mentions(s.Cond.T, o) || mentions(s.LHS, o) || mentions(s.RHS, o) || (s.Call != nil && mentions(*s.Call, o)) || (s.Blt != nil && mentions(*s.Blt, o)) {
+				return true
+			}
+			if s.Loop != nil {
+				if mentions(s.Loop.Over, o) || mentions(s.Loop.CondT, o) {
+					return true
+				}
+				for _, ip := range s.Loop.Iter {
+					if pathMentions(ip, o, nil) {
+						return true
+					}
+					for eo, et := range ip.Env {
+						if eo != o && mentions(et, o) {
+							return true
+						}
+					}
+				}
+			}
+		}
+		for _, t := range q.Vals {
+			if mentions(t, o) {
+				return true
+			}
+		}
+		return false
+	}
+	// the slice is used for nothing else
+	if pathMentions(p, acc, map[int]bool{a: true, b: true}) {
+		return nil
+	}
+	for _, ip := range l2.Iter {
+		if pathMentions(ip, acc, nil) {
+			return nil
+		}
+		for eo, et := range ip.Env {
+			if eo != acc && mentions(et, acc) {
+				return nil
+			}
+		}
+	}
+	tt := v.c.termType(l1.Over)
+	if tt == nil {
+		return nil
+	}
+	_, overMap := tt.Underlying().(*types.Map)
+	keyUsed := false
+	if l2.Key != nil {
+		for _, ip := range l2.Iter {
+			keyUsed = keyUsed || pathMentions(ip, l2.Key, nil)
+			for eo, et := range ip.Env {
+				if eo != l2.Key {
+					keyUsed = keyUsed || mentions(et, l2.Key)
+				}
+			}
+		}
+		keyUsed = keyUsed || pathMentions(p, l2.Key, map[int]bool{a: true})
+	}
+	if keyUsed && (!every || overMap || l1.Key == nil) {
+		return nil // positions in the gathered slice mean nothing for the collection
+	}
+	// rounds of the fused loop
+	nl := *l2
+	nl.Over, nl.Key, nl.Value, nl.Range = l1.Over, l1.Key, l1.Value, l1.Range
+	nl.Iter = nil
+	appending := -1
+	nApp := 0
+	for pi, p1 := range l1.Iter {
+		if elems[pi] == nil {
+			// nothing gathered: the second loop has no round for it, its variables stay as they are
+			q := clonePath(p1)
+			q.Env = copyEnv(l2.HeadEnv)
+			delete(q.Env, acc)
+			nl.Iter = append(nl.Iter, q)
+			continue
+		}
+		appending = pi
+		nApp++
+		e := elems[pi]
+		sub := func(t Term) (Term, bool) {
+			switch x := t.(type) {
+			case TVar:
+				if l2.Value != nil && x.Obj == l2.Value {
+					return e, true
+				}
+				if l2.Key != nil && x.Obj == l2.Key && l1.Key != nil {
+					return TVar{l1.Key}, true
+				}
+			}
+			return nil, false
+		}
+		for _, p2 := range l2.Iter {
+			q := mapPath(p2, sub)
+			q.Steps = append(append([]Step(nil), p1.Steps...), q.Steps...)
+			if q.Env != nil {
+				delete(q.Env, l2.Value)
+				delete(q.Env, l2.Key)
+			}
+			nl.Iter = append(nl.Iter, q)
+		}
+	}
+	// a function-level path that leaves the second loop from inside continues with that round's steps: they get the gathering round's
+	// steps in front — possible only when one round gathers
+	exit := inLoopExitIndex(p, b) >= 0 || inLoopExit(p, b)
+	if exit && nApp != 1 {
+		return nil
+	}
+	q := clonePath(p)
+	var steps []Step
+	steps = append(steps, p.Steps[:a]...)
+	steps = append(steps, p.Steps[a+1:b]...)
+	ns := p.Steps[b]
+	ns.Loop = &nl
+	steps = append(steps, ns)
+	tail := p.Steps[b+1:]
+	vals := p.Vals
+	if exit {
+		e := elems[appending]
+		sub := func(t Term) (Term, bool) {
+			switch x := t.(type) {
+			case TVar:
+				if l2.Value != nil && x.Obj == l2.Value {
+					return e, true
+				}
+				if l2.Key != nil && x.Obj == l2.Key && l1.Key != nil {
+					return TVar{l1.Key}, true
+				}
+			}
+			return nil, false
+		}
+		mt := mapPath(&Path{Steps: tail, Vals: vals}, sub)
+		steps = append(steps, l1.Iter[appending].Steps...)
+		tail, vals = mt.Steps, mt.Vals
+	}
+	steps = append(steps, tail...)
+	q.Steps = steps
+	q.Vals = vals
+	return q
+}
+
+// ---------------------------------------------------------------- primitive writes into a container made here
+
+// ifaceMethod: the method of the list (object) interface with the given name.
+func (v *sxView) ifaceMethod(list bool, name string) *types.Func {
+	for _, ct := range v.c.Inv().Conts {
+		if ct.IsList == list && ct.Iface != nil {
+			for _, m := range ifaceMethods(ct.Iface) {
+				if m.Name() == name {
+					return m
+				}
+			}
+		}
+	}
+	return nil
+}
+
+// freshContainer: t denotes a container allocated in this call (the literal itself or its address); returns its description.
+func (v *sxView) freshContainer(t Term) *Cont {
+	if a, ok := t.(TAddr); ok {
+		t = a.X
+	}
+	// the receiver's clone, asserted to the base type: self.Clone().(*object) — a new container of the base type (C09)
+	if pr, ok := t.(TProj); ok && pr.K == 0 {
+		t = pr.X
+	}
+	if as, ok := t.(TAssert); ok {
+		if cc, isCall := as.X.(TCall); isCall && cc.Fun != nil && len(cc.Args) == 0 && cc.Recv != nil && (cc.Fun.Name() == "Clone" || cc.Fun.Name() == "copy") && cc.Fun.Pkg() == v.c.Types {
+			if p, ok := as.To.(*types.Pointer); ok {
+				if nt, ok := p.Elem().(*types.Named); ok {
+					return v.c.Inv().ContOf(nt)
+				}
+			}
+		}
+		return nil
+	}
+	l, ok := t.(TLit)
+	if !ok || l.Type == nil {
+		return nil
+	}
+	tt := l.Type
+	if p, ok := tt.(*types.Pointer); ok {
+		tt = p.Elem()
+	}
+	nt, ok := tt.(*types.Named)
+	if !ok {
+		return nil
+	}
+	return v.c.Inv().ContOf(nt)
+}
+
+// primitiveWriteNorm: a container allocated in this call and filled through its spine directly —
+//
+//	R.val = append(R.val, parseVal(x))        R.val[k] = parseVal(x)
+//
+// — is presented as the mutator calls the rules read, R.Add(x) and R.Set(k, x): on a container of the base type made here these
+// do exactly that (C05.R9 / C06.R1: one conversion per value, appended / stored under the key), and no derived type can be involved.
+func (v *sxView) primitiveWriteNorm(paths []*Path) []*Path {
+	// the conversion must be part of the write itself (one conversion per write, as in Add/Set): a value converted once and
+	// written several times is one shared element, which no sequence of Add calls produces
+	isPV := func(t Term, at ast.Node) (Term, bool) {
+		pv, ok := t.(TCall)
+		if !ok || pv.Fun == nil || pv.Fun.Name() != "parseVal" || pv.Fun.Pkg() != v.c.Types || pv.Recv != nil || len(pv.Args) != 1 {
+			return nil, false
+		}
+		if pv.Site == nil || at == nil || !insideNode(pv.Site, at) {
+			return nil, false
+		}
+		return pv.Args[0], true
+	}
+	var rewrite func(p *Path) *Path
+	rewrite = func(p *Path) *Path {
+		var q *Path
+		for k, s := range p.Steps {
+			ns := s
+			changed := false
+			switch {
+			case s.Kind == "loop" && s.Loop != nil:
+				var iters []*Path
+				any := false
+				for _, ip := range s.Loop.Iter {
+					nip := rewrite(ip)
+					any = any || nip != ip
+					iters = append(iters, nip)
+				}
+				if any {
+					nl := *s.Loop
+					nl.Iter = iters
+					nl.Quiet = false
+					ns.Loop = &nl
+					changed = true
+				}
+			case s.Kind == "store":
+				if sel, ok := s.LHS.(TSel); ok {
+					ct := v.freshContainer(sel.X)
+					ap, isAp := s.RHS.(TBuiltin)
+					if ct == nil || !ct.IsList || sel.Field != ct.Spine || !isAp || ap.Name != "append" || len(ap.Args) < 2 {
+						break
+					}
+					if ce, isCall := ap.Site.(*ast.CallExpr); isCall && ce.Ellipsis.IsValid() {
+						break
+					}
+					old, ok := ap.Args[0].(TSel)
+					if !ok || old.Field != ct.Spine || !sameTerm(eraseEpochs(old.X), eraseEpochs(sel.X)) {
+						break
+					}
+					var args []Term
+					good := true
+					for _, a := range ap.Args[1:] {
+						x, ok := isPV(a, s.Node)
+						if !ok {
+							good = false
+							break
+						}
+						args = append(args, x)
+					}
+					add := v.ifaceMethod(true, "Add")
+					if !good || add == nil {
+						break
+					}
+					call := TCall{Fun: add, Name: add.Name(), Recv: sel.X, Args: args}
+					if ce, isCall := ap.Site.(*ast.CallExpr); isCall {
+						call.Site = ce
+					}
+					ns = Step{Kind: "call", Call: &call, Node: s.Node, Env: s.Env, Heap: s.Heap}
+					changed = true
+				} else if ix, ok := s.LHS.(TIndex); ok {
+					sp, isSel := ix.X.(TSel)
+					if !isSel {
+						break
+					}
+					ct := v.freshContainer(sp.X)
+					x, isConv := isPV(s.RHS, s.Node)
+					set := v.ifaceMethod(false, "Set")
+					if ct == nil || ct.IsList || sp.Field != ct.Spine || !isConv || set == nil {
+						break
+					}
+					call := TCall{Fun: set, Name: set.Name(), Recv: sp.X, Args: []Term{ix.I, x}}
+					if pv, ok := s.RHS.(TCall); ok {
+						call.Site = pv.Site
+					}
+					ns = Step{Kind: "call", Call: &call, Node: s.Node, Env: s.Env, Heap: s.Heap}
+					changed = true
+				}
+			}
+			if changed {
+				if q == nil {
+					q = clonePath(p)
+					q.Steps = append([]Step(nil), p.Steps...)
+				}
+				q.Steps[k] = ns
+			}
+		}
+		if q == nil {
+			return p
+		}
+		return q
+	}
+	out := make([]*Path, len(paths))
+	for i, p := range paths {
+		out[i] = rewrite(p)
+	}
+	return out
+}
+
+// sortNorm: sort.Sort(sort.IntSlice(s)) and sort.Stable(…) — also StringSlice, Float64Slice, and the method forms sort.IntSlice(s).Sort() —
+// are what the package documents sort.Ints(s) / sort.Strings(s) / sort.Float64s(s) to be; the call steps are presented in that form.
+func (v *sxView) sortNorm(paths []*Path) []*Path {
+	var sortPkg *types.Package
+	for _, imp := range v.c.Types.Imports() {
+		if imp.Path() == "sort" {
+			sortPkg = imp
+		}
+	}
+	if sortPkg == nil {
+		return paths
+	}
+	short := map[string]string{"IntSlice": "Ints", "StringSlice": "Strings", "Float64Slice": "Float64s"}
+	plain := func(t Term) (*types.Func, Term) {
+		cv, ok := t.(TConv)
+		if !ok {
+			return nil, nil
+		}
+		nt, ok := cv.To.(*types.Named)
+		if !ok || nt.Obj().Pkg() != sortPkg {
+			return nil, nil
+		}
+		f, _ := sortPkg.Scope().Lookup(short[nt.Obj().Name()]).(*types.Func)
+		if f == nil {
+			return nil, nil
+		}
+		return f, cv.X
+	}
+	var rewrite func(p *Path) *Path
+	rewrite = func(p *Path) *Path {
+		var q *Path
+		for k, s := range p.Steps {
+			ns := s
+			changed := false
+			switch {
+			case s.Kind == "loop" && s.Loop != nil:
+				var iters []*Path
+				any := false
+				for _, ip := range s.Loop.Iter {
+					nip := rewrite(ip)
+					any = any || nip != ip
+					iters = append(iters, nip)
+				}
+				if any {
+					nl := *s.Loop
+					nl.Iter = iters
+					ns.Loop = &nl
+					changed = true
+				}
+			case s.Kind == "call" && s.Call != nil && s.Call.Fun != nil && s.Call.Fun.Pkg() == sortPkg:
+				var f *types.Func
+				var arg Term
+				switch {
+				case s.Call.Recv == nil && len(s.Call.Args) == 1 && (s.Call.Fun.Name() == "Sort" || s.Call.Fun.Name() == "Stable"):
+					f, arg = plain(s.Call.Args[0])
+				case s.Call.Recv != nil && len(s.Call.Args) == 0 && s.Call.Fun.Name() == "Sort":
+					f, arg = plain(s.Call.Recv)
+				}
+				if f != nil {
+					call := *s.Call
+					call.Fun, call.Name, call.Recv, call.Args = f, f.Name(), nil, []Term{arg}
+					ns.Call = &call
+					changed = true
+				}
+			}
+			if changed {
+				if q == nil {
+					q = clonePath(p)
+					q.Steps = append([]Step(nil), p.Steps...)
+				}
+				q.Steps[k] = ns
+			}
+		}
+		if q == nil {
+			return p
+		}
+		return q
+	}
+	out := make([]*Path, len(paths))
+	for i, p := range paths {
+		out[i] = rewrite(p)
+	}
+	return out
+}
+
+// ---------------------------------------------------------------- countdowns
+
+// countdownNorm: `for left := len(xs); left > 0; left-- { … xs[len(xs)-left] … }` counts the elements still to come and reaches each
+// through its distance from the end. When the countdown is mentioned nowhere but in `N - left` (N what it started from), that
+// difference is an ascending position: the loop is presented as `for pos := 0; pos < N; pos++ { … xs[pos] … }`.
+func (v *sxView) countdownNorm(paths []*Path) []*Path {
+	type cdRw struct {
+		o, pos types.Object
+		n      Term
+		id     int
+		f      func(Term) (Term, bool)
+	}
+	mentions := func(p *Path, o types.Object, id int) bool {
+		hit := false
+		mapPath(p, func(t Term) (Term, bool) {
+			if lv, ok := t.(TLoop); ok && lv.Obj == o && lv.ID == id {
+				hit = true
+			}
+			return nil, false
+		})
+		return hit
+	}
+	find := func(l *LoopRec) *cdRw {
+		if l.For == nil || l.CondT == nil {
+			return nil
+		}
+		b, ok := simplify(l.CondT).(TBin)
+		if !ok {
+			return nil
+		}
+		var left Term
+		kx, xc := constInt(b.X)
+		ky, yc := constInt(b.Y)
+		switch {
+		case yc && ((b.Op == token.GTR && ky == 0) || (b.Op == token.NEQ && ky == 0) || (b.Op == token.GEQ && ky == 1)):
+			left = b.X
+		case xc && ((b.Op == token.LSS && kx == 0) || (b.Op == token.NEQ && kx == 0) || (b.Op == token.LEQ && kx == 1)):
+			left = b.Y
+		}
+		lv, ok := left.(TLoop)
+		if !ok || lv.ID != l.ID || !isIntType(lv.Obj.Type()) {
+			return nil
+		}
+		o := lv.Obj
+		step := 0
+		if l.Post != nil {
+			step = v.c.counterStep(l.Post, o)
+			for _, a := range v.c.assignedInStmt(l.Post) {
+				if a != o {
+					return nil
+				}
+			}
+		} else if d, ok := l.PostStep[o]; ok && len(l.PostStep) == 1 {
+			step = int(d)
+		}
+		n, has := l.Init[o]
+		if step != -1 || !has {
+			return nil
+		}
+		for _, p := range l.Iter {
+			if p.End == "fall" || p.End == "continue" {
+				if t, ok := p.Env[o]; ok && !sameTerm(t, lv) {
+					return nil // the body moves the countdown itself
+				}
+			}
+		}
+		pos := types.NewVar(l.For.Pos(), v.c.Types, "pos·"+o.Name(), types.Typ[types.Int])
+		id := l.ID
+		nk := key(eraseEpochs(n))
+		f := func(t Term) (Term, bool) {
+			if d, ok := t.(TBin); ok && d.Op == token.SUB {
+				if y, ok := d.Y.(TLoop); ok && y.Obj == o && y.ID == id && key(eraseEpochs(d.X)) == nk {
+					return TLoop{pos, id}, true
+				}
+			}
+			return nil, false
+		}
+		return &cdRw{o: o, pos: pos, n: n, id: id, f: f}
+	}
+	cache := map[int]*cdRw{}
+	tried := map[int]bool{}
+	out := make([]*Path, len(paths))
+	for pi, p := range paths {
+		out[pi] = p
+		q := p
+		for k := 0; k < len(q.Steps); k++ {
+			s := q.Steps[k]
+			if s.Kind != "loop" || s.Loop == nil {
+				continue
+			}
+			id := s.Loop.ID
+			if !tried[id] {
+				tried[id] = true
+				cache[id] = find(s.Loop)
+			}
+			rw := cache[id]
+			if rw == nil {
+				continue
+			}
+			cand := mapPath(q, rw.f)
+			r := cand.Steps[k].Loop
+			saved, savedHead := r.CondT, r.HeadEnv
+			r.CondT, r.HeadEnv = nil, nil
+			// the countdown's own binding (unchanged by the body) goes with it, also in the environments captured at call steps
+			var scrub func(p *Path)
+			scrub = func(p *Path) {
+				if t, ok := p.Env[rw.o]; ok && sameTerm(t, TLoop{rw.o, id}) {
+					delete(p.Env, rw.o)
+				}
+				for _, st := range p.Steps {
+					if t, ok := st.Env[rw.o]; ok && sameTerm(t, TLoop{rw.o, id}) {
+						delete(st.Env, rw.o)
+					}
+					if st.Loop != nil {
+						for _, ip := range st.Loop.Iter {
+							scrub(ip)
+						}
+					}
+				}
+			}
+			scrub(cand)
+			still := mentions(cand, rw.o, id)
+			r.CondT, r.HeadEnv = saved, savedHead
+			if still {
+				cache[id] = nil // also used for something else: on every path the loop stays as written
+				for pj := 0; pj < pi; pj++ {
+					out[pj] = paths[pj]
+				}
+				q = p
+				break
+			}
+			delete(r.Init, rw.o)
+			r.Init[rw.pos] = TConst{constant.MakeInt64(0)}
+			if r.HeadEnv != nil {
+				r.HeadEnv[rw.pos] = TLoop{rw.pos, id}
+			}
+			r.Post = nil
+			r.PostStep = map[types.Object]int64{rw.pos: 1}
+			r.CondT = TBin{Op: token.LSS, X: TLoop{rw.pos, id}, Y: rw.n}
+			for _, ip := range r.Iter {
+				if ip.Env != nil {
+					delete(ip.Env, rw.o)
+					ip.Env[rw.pos] = TLoop{rw.pos, id}
+				}
+			}
+			q = cand
+		}
+		out[pi] = q
+	}
+	return out
+}
+
+// nilByConds: a path that decided `T == nil` returns nil wherever it returns T (`if v, err = f(); err == nil { return v, err }`).
+func nilByConds(paths []*Path) []*Path {
+	out := make([]*Path, len(paths))
+	for i, p := range paths {
+		out[i] = p
+		if len(p.Vals) == 0 {
+			continue
+		}
+		var nils []Term
+		for _, cd := range p.Conds() {
+			b, ok := cd.T.(TBin)
+			if !ok || (b.Op != token.EQL && b.Op != token.NEQ) || cd.Truth != (b.Op == token.EQL) {
+				continue
+			}
+			if _, isNil := b.Y.(TNil); isNil {
+				nils = append(nils, b.X)
+			} else if _, isNil := b.X.(TNil); isNil {
+				nils = append(nils, b.Y)
+			}
+		}
+		if len(nils) == 0 {
+			continue
+		}
+		q := clonePath(p)
+		q.Vals = append([]Term(nil), p.Vals...)
+		changed := false
+		for k, t := range q.Vals {
+			q.Vals[k] = mapTerm(t, func(u Term) (Term, bool) {
+				for _, n := range nils {
+					if sameTerm(u, n) {
+						changed = true
+						return TNil{}, true
+					}
+				}
+				return nil, false
+			})
+		}
+		if changed {
+			out[i] = q
+		}
+	}
+	return out
 }
